@@ -137,6 +137,22 @@ theorem rows_in_index_order (d : List Proofs.File.RowEntry) :
 
 example : sortByIndex (dictSet (dictSet (dictSet [] 3 (0, [['c']])) 1 (1, [['a']])) 3 (2, [['c']])) = [(1, 1, [['a']]), (3, 2, [['c']])] := by decide
 
+/-! ### asking the reader to skip a table: where the file is left -/
+
+/-- `skip_table_TOUGH2` skips `header_skiplines + num_rows + sum(skiplines)` lines; `read_table_TOUGH2` skips
+    `header_skiplines` lines and then reads one line per entry of `skiplines`, skipping `skip` lines after each.  When no
+    row of the table is printed twice (`num_rows = len(skiplines)`; TOUGH2-MP tables can violate it) both leave the file
+    at exactly the same line, whatever the table contains — so the tables that follow are found and read alike.
+    (When rows are printed twice the skip lands inside the table; `next_table` then scans forward to the next table
+    header, which the correspondence and the oracle cover, not this theorem.)  `rest` are the lines from the table
+    header on. -/
+theorem skip_lands_where_read_lands (t t' : Table) (rest rest' : List Str)
+    (hrows : t.rows.size = t.skips.length)
+    (h : readRowsL t.keyPos t.cols.length t.numpos t.skips (rest.drop t.headerSkip) t = .ok (t', rest')) :
+    rest' = rest.drop (t.headerSkip + t.rows.size + t.skips.sum) := by
+  rw [Proofs.File.readRowsL_rest _ _ _ _ _ _ _ _ h, List.drop_drop, hrows]
+  congr 1; omega
+
 /-! ### AUTOUGH2 rows: values are separated by blanks -/
 
 /-- An AUTOUGH2 row is `pre` (keys and index, as long as `start`) followed by whitespace and the printed numbers,
